@@ -24,12 +24,13 @@ import threading
 
 
 class Sched:
-    def __init__(self, n, segments=(), trace_prefix=None, free=False, timeout=12.0):
+    def __init__(self, n, segments=(), trace_prefix=None, free=False, timeout=12.0, count_all=False):
         self.n = n
         self.segs = [list(s) for s in segments]
         self.si = 0
         self.trace_prefix = trace_prefix
         self.free = free
+        self.count_all = count_all     # keep counting points after the last possible hand-over (measuring)
         self.timeout = timeout
         self.ev = [threading.Event() for _ in range(n)]
         self.done = [False] * n
@@ -108,15 +109,33 @@ class Sched:
             self.ev[self.cur].set()
 
     # ---------------------------------------------------------------- tracing
-    def _tracer(self, frame, event, arg):
-        if event == 'call' and frame.f_code.co_filename.startswith(self.trace_prefix):
-            return self._local
-        return None
+    def _make_tracers(self, tid):
+        """Trace functions of one thread.  A thread that holds the token with an unlimited budget keeps it until it
+        finishes, so its statements need not be watched any more (unless they are being counted)."""
+        prefix = self.trace_prefix
+        counts = self.counts
+        count_all = self.count_all
 
-    def _local(self, frame, event, arg):
-        if event == 'line':
-            self.point(frame)
-        return self._local
+        def local(frame, event, arg):
+            if event == 'line':
+                b = self.budget
+                if b > 0 and not self.free:
+                    counts[tid] += 1
+                    self.budget = b - 1
+                elif b < 0 and not count_all:
+                    return None
+                else:
+                    self.point(frame)
+            return local
+
+        def glob(frame, event, arg):
+            if self.budget < 0 and not count_all:
+                sys.settrace(None)
+                return None
+            if event == 'call' and frame.f_code.co_filename.startswith(prefix):
+                return local
+            return None
+        return glob
 
     # ---------------------------------------------------------------- driver
     def run(self, fns, join_timeout=15.0):
@@ -128,7 +147,7 @@ class Sched:
             self._begin(tid)
             try:
                 if self.trace_prefix and not self.free:
-                    sys.settrace(self._tracer)
+                    sys.settrace(self._make_tracers(tid))
                 try:
                     box[tid]['r'] = fns[tid]()
                 finally:
